@@ -237,16 +237,51 @@ def wl_track(ctx, rng, case_no):
     wit = {"n": n, "generator": as_gen, "auto_refresh": auto, "stop_at": stop_at, "TERM": term, "terminal": tty}
     ctx.hist("track_console", "%s/%s" % ("tty" if tty else "file", term))
     ctx.count("mon.track")
-    with p:
-        seq = (x for x in items) if as_gen else list(items)
-        gen = p.track(seq, total=n if as_gen else None, update_period=0.0005)
-        broke = False
-        for x in gen:
-            got.append(x)
-            if stop_at is not None and len(got) >= stop_at + 1:
-                broke = True
-                break
-        gen.close()
+    broke = False
+    module_level = rng.random() < 0.25
+    wit["route"] = "rich.progress.track()" if module_level else "Progress.track()"
+    ctx.hist("track_route", wit["route"])
+    if module_level:
+        # the module-level helper builds its own Progress (spied on here to read the task afterwards), with or
+        # without a description column, and disabled now and then (no display: the counting is still promised)
+        import rich.progress as rp
+        made = []
+
+        class Spy(rp.Progress):
+            def __init__(self, *a, **k):
+                super().__init__(*a, **k)
+                made.append(self)
+        orig = rp.Progress
+        rp.Progress = Spy
+        try:
+            seq = (x for x in items) if as_gen else list(items)
+            gen = rp.track(seq, rng.choice(["Working...", "", "d"]), total=n if as_gen else None, auto_refresh=auto,
+                           console=console, transient=rng.random() < 0.3, get_time=clock, refresh_per_second=1000,
+                           update_period=0.0005, disable=rng.random() < 0.15)
+            for x in gen:
+                got.append(x)
+                if stop_at is not None and len(got) >= stop_at + 1:
+                    broke = True
+                    break
+            gen.close()
+        finally:
+            rp.Progress = orig
+        if not made or not made[0].tasks:
+            if n or not broke:
+                ctx.violation("track-made-no-task", wit)
+            ctx.case_done(("track", n, as_gen, auto, stop_at, "module"), False, wit)
+            return
+        p = made[0]
+    else:
+        with p:
+            seq = (x for x in items) if as_gen else list(items)
+            gen = p.track(seq, total=n if as_gen else None, update_period=0.0005)
+            for x in gen:
+                got.append(x)
+                if stop_at is not None and len(got) >= stop_at + 1:
+                    broke = True
+                    break
+            gen.close()
     task = p.tasks[0]
     if got != items[:len(got)]:
         ctx.violation("track-yields-wrong-elements", dict(wit, got=got[:10]))
